@@ -29,6 +29,11 @@ CHECKS["C04"] = dict(
           dict(pkg="server", harness="VfC04_history3", reach=["end"], quick=dict(skip=True), bounds="as history2 with 3 announcements"),
           dict(pkg="server", harness="VfC04_mixed4", reach=["end", "with-operation"], thorough=dict(skip=True),
                bounds="histories from the initial state of 4 steps, each an election announcement (A/B, arbitrary non-zero 128-bit id) or one operation (A/B, arbitrary stamp), in every interleaving (accepted operation - hand-over - stale operation ...); verdict after every operation"),
+          dict(pkg="server", harness="VfC04_mixedLeave3", reach=["end", "with-operation", "departure"], thorough=dict(skip=True),
+               bounds="as mixed with 3 steps and ONE departure of a session (deleteClient) before a symbolic step: the departure of the primary or of the standby changes neither the highest id learnt nor what the remaining session may do"),
+          dict(pkg="server", harness="VfC04_mixedLeave4", reach=["end", "with-operation", "departure"], quick=dict(skip=True), bounds="as mixedLeave3 with 4 steps"),
+          dict(pkg="server", harness="VfC04_concurrent", reach=["end"], validate=0, replay_attempts=3, opts=dict(unwind=16),
+               bounds="two sessions announce different arbitrary non-zero 128-bit ids CONCURRENTLY (every schedule with up to 2 pre-emptive context switches), then each sends one operation stamped with its own id: only the higher id's session reaches the RIB (native replay: 200 000 rounds of real goroutines)"),
           dict(pkg="server", harness="VfC04_mixed5", reach=["end", "with-operation"], quick=dict(skip=True), bounds="as mixed4 with 5 steps"),
           dict(pkg="server", harness="VfC04_doModify3", load=["server"], quick=dict(skip=True), bounds="as doModify with a session table {A,B,C} and batches of 1-3 operations")],
     assumptions=["RIB effect observed through next-hop ADD operations in the default network instance (the RIB's own behaviour is C01's)"],
@@ -53,7 +58,9 @@ CHECKS["C08"] = dict(
 
 CHECKS["C09"] = dict(
     runs=[dict(pkg="server", harness="VfC09_modify2", reach=["end", "terminated", "clean"], thorough=dict(skip=True),
-               bounds="real Server.Modify (3 goroutines, channels) on a scripted stream of 2 symbolic messages then EOF; one other live session with arbitrary parameters; arbitrary election state; deterministic schedule"),
+               bounds="real Server.Modify (3 goroutines, channels) on a scripted stream of 2 symbolic messages (an operation message carries 1-2 operations, each with its own optional election stamp) then EOF; one other live session with arbitrary parameters; arbitrary election state; deterministic schedule"),
+          dict(pkg="server", harness="VfC09_session3", reach=["end", "terminated", "clean"],
+               bounds="as modify2 with the script [session parameters, election announcement, operation message of 1-2 operations]: shapes fixed, every content symbolic (modes, 128-bit ids, each operation's own optional stamp)"),
           dict(pkg="server", harness="VfC09_modify3", reach=["end", "terminated", "clean"], quick=dict(skip=True),
                bounds="as modify2 with 3 messages (reaches every state of the per-session automaton)")],
     assumptions=["enum fields range over their defined values", "status codes are pinned only where the specification/compliance suite pins them (DESIGN.md C09)"],
@@ -93,7 +100,8 @@ _RE = [("VfRIB_qEnum", _B["VfRIB_qEnum"]), ("VfRIB_qPayload", _B["VfRIB_qPayload
 _B["VfRIB_big"] = "scale: a large pre-state of concrete shape built through the API (16 next-hops, 8 two-member groups sharing next-hops, 6 IPv4 (symbolic distinct prefixes) / 4 MPLS / 2 IPv6 entries over two instances incl. cross-instance references, 6 held groups + 3 held entries), then ONE fully symbolic operation that may hit any installed or held object"
 _RS = [("VfRIB_big", _B["VfRIB_big"])]
 _B["VfRIB_q3h"] = "the stale held REPLACE of q3 next to TWO further held operations (groups waiting for a next-hop - possibly the group the REPLACE waits for - or IPv4 entries, possibly the REPLACE's own key), then one symbolic next-hop / group ADD that starts a cascade; every iteration order of the held-operation map"
-_RQ = [(h, _B[h]) for h in ("VfRIB_q1", "VfRIB_q2", "VfRIB_qNoFwd", "VfRIB_qx", "VfRIB_qo", "VfRIB_q3", "VfRIB_q3h")]
+_B["VfRIB_qW"] = "weighted groups: members carry an optional weight of ANY 64-bit value (0 included); pre-state 1 next-hop, 1 group (<=1 member), 1 held IPv4 entry; one symbolic group ADD/REPLACE/DELETE of <=2 distinct members; forward references allowed or disallowed"
+_RQ = [(h, _B[h]) for h in ("VfRIB_q1", "VfRIB_q2", "VfRIB_qNoFwd", "VfRIB_qx", "VfRIB_qo", "VfRIB_q3", "VfRIB_q3h", "VfRIB_qW")]
 _B["VfRIB_t1r"] = "as q1 plus a held operation (ADD or REPLACE) and optional payload fields everywhere (next-hop tag / pop-top-label, backup group, colour, metadata, weights); one symbolic operation with <=2 members"
 _B["VfRIB_t3e"] = "histories from the EMPTY two-instance RIB: THREE consecutive fully symbolic operations (next-hop / group of <=1 member / IPv4 entry; ADD/REPLACE/DELETE; any instance name)"
 _RT = [(h, _B[h]) for h in ("VfRIB_t1", "VfRIB_t1r", "VfRIB_t2", "VfRIB_tOrder")]
@@ -127,6 +135,8 @@ CHECKS["C06"] = dict(
                bounds="doModify/modifyEntry/real RIB: elected primary with FIB-ack on/off, 0-1 held operation, a request of 1-2 symbolic operations (next-hop / group / IPv4 entry; ADD/REPLACE/DELETE; any instance name incl. empty and unknown; symbolic keys and references)"),
           dict(pkg="server", harness="VfC06_handover", reach=["end"],
                bounds="hand-over of the primary role while an operation is held: one scripted history with symbolic member / next-hop index"),
+          dict(pkg="server", harness="VfC06_heldAcrossElection", reach=["end"],
+               bounds="an operation of the primary is held; the same session re-announces ANY 128-bit id >= its own; then the resolving operation stamped with the new id: both answered exactly once, both installed, nothing left held; FIB-ack on/off"),
           dict(pkg="server", harness="VfC06_halfClose", reach=["end"], validate=0, replay_attempts=30, replay_candidates=6, opts=dict(unwind=16),
                bounds="real Server.Modify (3 goroutines) on [params, election, ADD] followed at once by a half-close; every schedule with up to 2 pre-emptive context switches at synchronisation points")]
          + [dict(pkg="server", harness="VfC06_manyHeld300", reach=["end", "pre-built", "resolved-one"], validate=2, opts=dict(maxsteps=600000000),
@@ -173,6 +183,8 @@ CHECKS["C07"] = dict(
 CHECKS["C13"] = dict(
     runs=[dict(pkg="client", harness="VfC13_accounting_q", reach=["end", "pre-built", "await-ok", "await-errors"], thorough=dict(skip=True),
                bounds="client in RIB-ack or FIB-ack mode after StartSending; 0-2 operations queued in separate requests or in ONE request (symbolic ids - equal ids included -, ADD/REPLACE, IPv4/group/MPLS, symbolic key), handshake answered or not; ONE response of any shape: 1-2 results (symbolic id, status in {FAILED,RIB_PROGRAMMED,FIB_PROGRAMMED,FIB_FAILED,UNSET}), election, session parameters, or mixed content; then the convergence check"),
+          dict(pkg="client", harness="VfC13_recvViolation", reach=["end"], validate=0, replay_attempts=30, opts=dict(unwind=40),
+               bounds="the REAL receive loop (Connect's sender / receiver goroutines on a scripted stream): 1-2 operations queued; the answer completes the last pending operation and also carries a result for an id never sent; AwaitConverged runs concurrently - every schedule with up to 2 pre-emptive context switches at synchronisation points; it never reports success"),
           dict(pkg="client", harness="VfC13_accounting_t", reach=["end", "pre-built", "await-ok", "await-errors"], quick=dict(skip=True),
                bounds="as accounting_q with all five entry kinds, all three operation types and TWO consecutive responses (RIB-before-FIB sequences, duplicate terminal results, results after completion)")],
     assumptions=["responses are delivered to handleModifyResponse as the receiver goroutine does (errors recorded with addReadErr); goroutine scheduling of Connect is C14's subject",
